@@ -284,6 +284,11 @@ func (ex *Exec) fire(before bool, kind, name string, c *ssa.CallCommon, args []V
 						}
 					}
 				}
+				if _, isIdx := a.C.E.(EIndex); isIdx {
+					// havoc s[*] / s[i] / m[*]: the same locations a modifies clause would name
+					ex.havocItems(ex.evalLoc(a.C.E, ex.st, env), ex.st.clone())
+					continue
+				}
 				p, t := ex.placeOf(a.C.E, ex.st, env)
 				ex.store(p, ex.freshValue("hv", t, ex.st.pc))
 			case "apply":
